@@ -80,6 +80,8 @@ enum Command {
     Check {
         /// File to check
         name: PathBuf,
+        #[command(flatten)]
+        run_options: RunOptions,
     },
     /// Remove compilation artifacts for specified source
     Clean {
@@ -90,6 +92,8 @@ enum Command {
     Watch {
         /// `.asm` file to watch
         name: PathBuf,
+        #[command(flatten)]
+        run_options: RunOptions,
     },
     /// Format `.asm` file to adhere to recommended style
     Fmt {
@@ -201,7 +205,11 @@ fn main() -> miette::Result<()> {
             file_message(Green, "Saved", &out_file_name);
             Ok(())
         }
-        Some(Command::Check { name }) => {
+        Some(Command::Check {
+            name,
+            run_options: RunOptions { features },
+        }) => {
+            lace::features::init(features);
             file_message(Green, "Checking", &name);
             let contents = StaticSource::new(fs::read_to_string(&name).into_diagnostic()?);
             let _ = assemble(&contents)?;
@@ -209,7 +217,11 @@ fn main() -> miette::Result<()> {
             Ok(())
         }
         Some(Command::Clean { name: _ }) => todo!("There are no debug files implemented to clean!"),
-        Some(Command::Watch { name }) => {
+        Some(Command::Watch {
+            name,
+            run_options: RunOptions { features },
+        }) => {
+            lace::features::init(features);
             if !name.exists() {
                 bail!("File does not exist. Exiting...")
             }
